@@ -236,7 +236,15 @@ def prove_lt(facts,x,y):
         if f[0]=='lt' and prove_le(facts,x,f[1]) and prove_le(facts,f[2],y): return True
     if isinstance(x,tuple) and isinstance(y,tuple) and x[0]=='int' and y[0]=='int': return x[1]<y[1]
     return False
+def _ne_known(facts,a,b):
+    return any(g[0]=='ne' and ((g[1]==a and g[2]==b) or (g[1]==b and g[2]==a)) for g in facts)
 def contradicts(facts,f):
+    if f[0]=='ne':
+        return prove_eq([g for g in facts if g[0]!='ne'],f[1],f[2])
+    if f[0]=='le' and _ne_known(facts,f[1],f[2]) and prove_le([g for g in facts if g[0]!='ne'],f[2],f[1]):
+        return True          # a <= b with b <= a and a != b
+    if f[0]=='eq' and _ne_known(facts,f[1],f[2]):
+        return True
     if f[0] in('lt','le'):
         L,U=lin_range(('sub',f[1],f[2]),facts)      # a - b
         if L is not None and (L>0 or (f[0]=='lt' and L>=0)): return True
@@ -668,14 +676,17 @@ class An:
             else: truth=(val!='0')
             if v[0]=='bool':
                 _,rel,a,b=v
-                if truth: f={'lt':('lt',a,b),'le':('le',a,b),'gt':('lt',b,a),'ge':('le',b,a),'eq':('eq',a,b),'ne':None}[rel]
-                else: f={'lt':('le',b,a),'le':('lt',b,a),'gt':('le',a,b),'ge':('lt',a,b),'eq':None,'ne':('eq',a,b)}[rel]
+                if truth: f={'lt':('lt',a,b),'le':('le',a,b),'gt':('lt',b,a),'ge':('le',b,a),'eq':('eq',a,b),'ne':('ne',a,b)}[rel]
+                else: f={'lt':('le',b,a),'le':('lt',b,a),'gt':('le',a,b),'ge':('lt',a,b),'eq':('ne',a,b),'ne':('eq',a,b)}[rel]
                 if f:
                     if contradicts(s.facts,f): return False
                     s.facts.append(f)
                     if f[0]=='le' and f[2]==TERM0:
                         L,U=lin_range(f[1],s.facts)
                         if L is not None and L>=0: s.facts.append(('eq',f[1],TERM0))
+                    if f[0]=='le' and f[1]==TERM0:
+                        L,U=lin_range(f[2],s.facts)
+                        if U is not None and U<=0: s.facts.append(('eq',f[2],TERM0))      # 0 <= x together with x <= 0
             else:
                 _,what,symn,c=v
                 if (not truth) and symn is not None and what=='is_odd':
